@@ -249,6 +249,10 @@ def plan_tounicode(mapping, rnd=None, codelen=1, allow_ranges=True):
     codes = sorted(mapping)
     out = []
     i = 0
+    if (codelen == 1 and allow_ranges and codes == list(range(256)) and len(mapping[0]) == 1 and ord(mapping[0]) % 256 == 0
+            and all(mapping[c] == chr(ord(mapping[0]) + c) for c in codes) and (rnd is None or rnd.random() < 0.7)):
+        # the whole one-byte code space as one range: <00> <FF> <xx00>
+        return [("range", 0, 255, mapping[0])]
     while i < len(codes):
         c = codes[i]
         j = i
